@@ -2,5 +2,5 @@
 # seedquick.sh C02:a ... : run the quick check against each seed patch (no suite), sequentially
 for it in "$@"; do
   ID=${it%%:*}; X=${it##*:}
-  SEED_TAIL=${SEED_TAIL:-4} /verif/vlib/seedrun.sh /tmp/seed/$ID/out/$X/patch.diff $ID ${TIER:-quick} 2>&1 | cut -c1-700 | tail -5
+  SEED_TAIL=${SEED_TAIL:-4} /verif/vlib/seedrun.sh ${SEEDBASE:-/tmp/seed}/$ID/out/$X/patch.diff $ID ${TIER:-quick} 2>&1 | cut -c1-700 | tail -5
 done
